@@ -20,7 +20,7 @@ import typing as t
 
 from .. import astq, guards
 from ..cfg import CFG, Node
-from ..loader import AnalysisError, FuncInfo, dotted, norm
+from ..loader import AnalysisError, FuncInfo, dotted, norm, walk_no_nested
 
 # ----------------------------------------------------------------------
 # expressions
@@ -569,6 +569,79 @@ class StateFlow:
         self.root_of = root_of
         self.scope = scope  # the function whose plain local assignments may be looked through
         self._busy: set[str] = set()
+        # local name -> (statement, successor kinds it contributes): where the content of a local that stands between
+        # the state and the place that hands its successors on comes from (`todo = list(x.static.values())`,
+        # `todo += [...]`, `todo.append(t)` ...); the rule asks that such a statement is passed on every traversal step
+        self.contrib: dict[str, list[tuple[ast.AST, set[str]]]] = {}
+        self.drops: list[str] = []  # filtered iterations that leave out a successor with transitions below it
+
+    def _keeps(self, cond: ast.AST, names: list[str]) -> bool | None:
+        """a filter over successor states: True - it lets every successor through whose .static or .dynamic is
+        non-empty (it only drops leaf states, below which there is nothing to sort); False - it drops one that has
+        transitions; None - it tests something else."""
+        def tri(e: ast.AST, leaf: t.Callable[[ast.AST], bool | None]) -> bool | None:
+            if isinstance(e, ast.BoolOp):
+                vals = [tri(v, leaf) for v in e.values]
+                dom = not isinstance(e.op, ast.And)  # the value that decides the operation
+                if any(v is dom for v in vals):
+                    return dom
+                return None if any(v is None for v in vals) else (not dom)
+            if isinstance(e, ast.UnaryOp) and isinstance(e.op, ast.Not):
+                v = tri(e.operand, leaf)
+                return None if v is None else not v
+            if isinstance(e, ast.Constant):
+                return bool(e.value)
+            return leaf(e)
+
+        for dyn, stat in ((True, False), (False, True), (True, True)):
+            def leaf(e: ast.AST, dyn: bool = dyn, stat: bool = stat) -> bool | None:
+                for nm in names:
+                    for a, v in (("dynamic", dyn), ("static", stat)):
+                        pol = truthy_polarity(e, f"{nm}.{a}")
+                        if pol is not None:
+                            return pol == v
+                return None
+
+            r = tri(cond, leaf)
+            if r is not True:
+                return r
+        return True
+
+    _PUT_ONE = ("append", "appendleft", "add", "insert")  # the element is the last argument
+    _PUT_MANY = ("extend", "extendleft", "update")
+
+    def _local(self, name: str, env: dict[str, Val]) -> Val | None:
+        """what a local of the scope may hold: the union of the values it is bound to and - for a container - of what
+        is put into it afterwards (`+=` / `|=`, append / extend / add / update / insert ...), each evaluated under the
+        loop bindings of its own statement.  None: some binding of the name is not understood."""
+        assert self.scope is not None
+        binds = astq.assigns_to(self.scope, name)
+        if not binds:
+            return None
+        acc: set[t.Any] = set()
+        notes: list[tuple[ast.AST, set[str]]] = []
+
+        def note(site: ast.AST, v: Val) -> None:
+            acc.update(v)
+            notes.append((site, (flat(v) | flat(self.elems(v))) & {"S", "D"}))
+
+        for st, v in binds:
+            here = {**env, **self.env_at(st, self.scope)}
+            if v is not None:
+                note(st, self.ev(v, here))
+            elif isinstance(st, ast.AugAssign) and isinstance(st.op, (ast.Add, ast.BitOr)):
+                note(st, frozenset([("iter", self.elems(self.ev(st.value, here)))]))
+            else:
+                return None
+        for c in walk_no_nested(self.scope):
+            if isinstance(c, ast.Call) and isinstance(c.func, ast.Attribute) and astq.is_name(c.func.value, name) and c.args and not c.keywords:
+                here = {**env, **self.env_at(c, self.scope)}
+                if c.func.attr in self._PUT_ONE:
+                    note(c, frozenset([("iter", self.ev(c.args[-1], here))]))
+                elif c.func.attr in self._PUT_MANY:
+                    note(c, frozenset([("iter", self.elems(self.ev(c.args[0], here)))]))
+        self.contrib[name] = notes
+        return frozenset(acc)
 
     def elems(self, v: Val) -> Val:
         out: set[t.Any] = set()
@@ -605,17 +678,15 @@ class StateFlow:
             if e.id in env:
                 return env[e.id]
             if self.scope is not None and e.id not in self._busy:
-                # a local that holds an expression over the state (`children = [*state.static.values(), ...]`)
-                vals = [v for st, v in astq.assigns_to(self.scope, e.id)]
-                if vals and all(v is not None for v in vals):
-                    self._busy.add(e.id)
-                    try:
-                        acc: set[t.Any] = set()
-                        for v in vals:
-                            acc |= self.ev(v, env)  # type: ignore[arg-type]
-                        return frozenset(acc)
-                    finally:
-                        self._busy.discard(e.id)
+                # a local that holds an expression over the state (`children = [*state.static.values(), ...]`), or a
+                # container that is filled with its successors step by step
+                self._busy.add(e.id)
+                try:
+                    got = self._local(e.id, env)
+                finally:
+                    self._busy.discard(e.id)
+                if got is not None:
+                    return got
             return UNKNOWN
         txt = norm(e)
         if txt == f"{x}.static.values()":
@@ -672,9 +743,15 @@ class StateFlow:
         if isinstance(e, (ast.GeneratorExp, ast.ListComp, ast.SetComp)):
             env2 = dict(env)
             for g in e.generators:
-                if g.ifs:
-                    return UNKNOWN  # a filter may drop states
                 self.bind(env2, g.target, self.elems(self.ev(g.iter, env2)))
+                if g.ifs:
+                    # a filter may drop states: harmless only when it drops none that has transitions of its own
+                    succ = [n.id for n in ast.walk(g.target) if isinstance(n, ast.Name) and flat(env2.get(n.id, frozenset())) & {"S", "D"}]
+                    verdicts = [self._keeps(c, succ) for c in g.ifs] if succ else [None]
+                    if any(v is None for v in verdicts):
+                        return UNKNOWN
+                    if not all(verdicts) and norm(e) not in self.drops:
+                        self.drops.append(norm(e))
             return frozenset([("iter", self.ev(e.elt, env2))])
         if isinstance(e, ast.Starred):
             return self.ev(e.value, env)
